@@ -79,7 +79,8 @@ class NoiseModelFromNoiseProperties(devices.NoiseModel):
         # Split multi-qubit measurements into single-qubit measurements.
         # These will be recombined after noise is applied.
         split_measure_moments = []
-        multi_measurements = {}
+        # The measurements of each key, in circuit order (a key may be measured repeatedly).
+        multi_measurements: dict[cirq.MeasurementKey, list[cirq.Operation]] = {}
         for moment in moments:
             split_measure_ops = []
             for op in moment:
@@ -87,7 +88,7 @@ class NoiseModelFromNoiseProperties(devices.NoiseModel):
                     split_measure_ops.append(op)
                     continue
                 m_key = protocols.measurement_key_obj(op)
-                multi_measurements[m_key] = op
+                multi_measurements.setdefault(m_key, []).append(op)
                 for q in op.qubits:
                     split_measure_ops.append(ops.measure(q, key=m_key))
             split_measure_moments.append(circuits.Moment(split_measure_ops))
@@ -128,7 +129,7 @@ class NoiseModelFromNoiseProperties(devices.NoiseModel):
                     continue
                 restore_keys.add(protocols.measurement_key_obj(op))
             for key in restore_keys:
-                combined_measure_ops.append(multi_measurements[key])
+                combined_measure_ops.append(multi_measurements[key].pop(0))
             final_moments.append(circuits.Moment(combined_measure_ops))
         return final_moments
 
